@@ -157,6 +157,15 @@ class Mat:
 
 
 @dataclass(frozen=True)
+class MatA:
+    """abstract square matrix: an algebraic term over opaque matrices (MatAlg of DESIGN 2.4), with its dimension.
+    term forms: ('var', name) | ('E', label, dim sexpr) | ('mul', a, b) | ('pad0', a) | ('pad1', a)
+    pad0 = np.pad(a, (0,1)) (zero row/column appended), pad1 = pad0 with the new corner set to one."""
+    term: tuple
+    dim: object
+
+
+@dataclass(frozen=True)
 class RangeV:
     lo: object
     hi: object
